@@ -1,7 +1,11 @@
 // C15 (WMO write -> parse), parser side.  Child module of wow-wmo/src/parser.rs: sees the private
-// `WmoParser::parse_*` chunk parsers.  Each harness writes a root with the public `WmoWriter::write_root`,
-// locates one chunk with the reference chunk walker, hands it to the real private parser through a chunk
-// map with concrete keys and compares what comes back with what was written.
+// `WmoParser::parse_*` chunk parsers.  Each harness writes one list with the real chunk writer, hands the bytes to the real
+// private parser through a chunk table with concrete keys, positions and sizes (checked against the written bytes by the
+// reference readers) and compares what comes back with what was written.
+//
+// Buffers are kept at <= 64 bytes wherever the chunk fits: CBMC treats arrays up to 64 cells field by field; beyond that
+// every byte written is an array update in the formula (measured: the same round trip through a 160-byte root file needs
+// > 8 GB and minutes, through a 64-byte buffer seconds).
 #![allow(unused_imports, dead_code)]
 #[path = "../env/io.rs"]
 mod vio;
@@ -18,7 +22,7 @@ fn lossy_stub(v: &[u8]) -> std::borrow::Cow<'_, str> {
     std::borrow::Cow::Borrowed(unsafe { std::str::from_utf8_unchecked(v) })
 }
 
-/// chunk-map entry as `read_chunks` would produce it.  Position and size are given as literals (control values must not be
+/// chunk-table entry as `read_chunks` would produce it.  Position and size are given as literals (control values must not be
 /// read back from a buffer that holds symbolic bytes) and checked against the written bytes with the reference readers.
 fn chunk_at<const N: usize>(out: &Sink<N>, id: &[u8; 4], at: usize, size: u32) -> (ChunkId, Chunk) {
     assert!(id_at(out, at, id), "expected chunk is not at the position the chunk law puts it");
@@ -26,8 +30,6 @@ fn chunk_at<const N: usize>(out: &Sink<N>, id: &[u8; 4], at: usize, size: u32) -
     let cid = ChunkId(*id);
     (cid, Chunk { header: ChunkHeader { id: cid, size }, data_position: (at + 8) as u64 })
 }
-/// first list chunk of a root: after MVER (12 bytes) and MOHD (8 + 60 bytes)
-const FIRST: usize = 80;
 fn map1<const N: usize>(out: &Sink<N>, id: &[u8; 4], at: usize, size: u32) -> ChunkTable {
     let mut m = ChunkTable::new();
     let (k, c) = chunk_at(out, id, at, size);
@@ -38,6 +40,7 @@ fn map2<const N: usize>(out: &Sink<N>, a: &[u8; 4], a_at: usize, a_size: u32, b:
     let mut m = map1(out, a, a_at, a_size);
     let (k, c) = chunk_at(out, b, a_at + 8 + a_size as usize, b_size);
     m.insert(k, c);
+    assert!(a_at + 8 + a_size as usize + 8 + b_size as usize == out.pos, "the two chunks do not tile the bytes written");
     m
 }
 fn coleq(a: &Color, b: &Color) -> bool { a.r == b.r && a.g == b.g && a.b == b.b && a.a == b.a }
@@ -49,33 +52,31 @@ fn veq(a: &Vec3, b: &Vec3) -> bool { v3eq(a, b.x, b.y, b.z) }
 #[kani::stub(tracing::__macro_support::__is_enabled, common::tr_is_enabled)]
 #[kani::stub(tracing::Event::dispatch, common::tr_dispatch)]
 #[kani::stub(std::fmt::format, vio::fmt_stub)]
-#[kani::stub(std::hash::RandomState::new, common::rs_stub)]
 #[kani::unwind(30)]
 fn c15p_materials_roundtrip() {
     let v = ver_classic_to_mop();
-    let mut root = empty_root(v);
-    root.materials.push(any_material());
-    let mut out = Sink::<160>::new();
-    let r = WmoWriter::new().write_root(&mut out, &root, v);
-    assert!(r.is_ok());
+    let m = [any_material()];
+    let mut out = Sink::<80>::new();
+    let r = WmoWriter::new().write_materials(&mut out, &m, v);
+    assert!(r.is_ok() && out.pos == 72);
     // (known finding momt-size: below MoP the chunk declares 40 bytes; parse_materials does not look at the declared size)
-    let map = map1(&out, b"MOMT", FIRST, if v >= WmoVersion::Mop { 64 } else { 40 });
-    let mut src = Src::<160>::new(out.buf, out.pos);
-    assert!(u32_at(&out, 20) == 1, "MOHD.nMaterials != 1");
+    let map = map1(&out, b"MOMT", 0, if v >= WmoVersion::Mop { 64 } else { 40 });
+    let mut src = Src::<80>::new(out.buf, out.pos);
     let p = WmoParser::new().parse_materials(&map, &mut src, 1);
-    assert!(p.is_ok(), "materials written by write_root are rejected by parse_materials");
+    assert!(p.is_ok(), "materials written by write_materials are rejected by parse_materials");
     let p = p.unwrap();
     kani::cover!(p.len() == 1 && p[0].shader == 5);
     assert!(p.len() == 1, "material count changed in write -> parse");
-    let (a, b) = (&root.materials[0], &p[0]);
+    assert!(src.pos == out.pos, "parse_materials does not consume exactly the bytes written for one material");
+    let (a, b) = (&m[0], &p[0]);
     assert!(a.flags == b.flags && a.shader == b.shader && a.blend_mode == b.blend_mode && a.texture1 == b.texture1 && a.texture2 == b.texture2
         && a.ground_type == b.ground_type, "material scalar fields changed in write -> parse");
     assert!(coleq(&a.emissive_color, &b.emissive_color) && coleq(&a.sidn_color, &b.sidn_color) && coleq(&a.diffuse_color, &b.diffuse_color),
         "material colours changed in write -> parse");
-    std::mem::forget((r, root, map, p));
+    std::mem::forget((r, m, map, p));
 }
 
-// ------------------------------------------------------------------ MOHD
+// ------------------------------------------------------------------ MOHD (through write_root: MVER + MOHD)
 #[kani::proof]
 #[kani::stub(tracing::callsite::DefaultCallsite::interest, common::tr_interest)]
 #[kani::stub(tracing::__macro_support::__is_enabled, common::tr_is_enabled)]
@@ -109,30 +110,26 @@ fn c15p_header_roundtrip() {
 #[kani::stub(tracing::__macro_support::__is_enabled, common::tr_is_enabled)]
 #[kani::stub(tracing::Event::dispatch, common::tr_dispatch)]
 #[kani::stub(std::fmt::format, vio::fmt_stub)]
-#[kani::stub(std::hash::RandomState::new, common::rs_stub)]
 #[kani::unwind(12)]
 fn c15p_lights_roundtrip() {
-    let v = ver_classic_to_mop();
-    let mut root = empty_root(v);
-    root.lights.push(any_light());
-    let mut out = Sink::<144>::new();
-    let r = WmoWriter::new().write_root(&mut out, &root, v);
-    assert!(r.is_ok());
-    let map = map1(&out, b"MOLT", FIRST, 48);
-    assert!(u32_at(&out, 20 + 12) == 1, "MOHD.nLights != 1");
-    let mut src = Src::<144>::new(out.buf, out.pos);
+    let l = [any_light()];
+    let mut out = Sink::<64>::new();
+    let r = WmoWriter::new().write_lights(&mut out, &l, ver_classic_to_mop());
+    assert!(r.is_ok() && out.pos == 56);
+    let map = map1(&out, b"MOLT", 0, 48);
+    let mut src = Src::<64>::new(out.buf, out.pos);
     let p = WmoParser::new().parse_lights(&map, &mut src, WmoVersion::Classic, 1);
-    assert!(p.is_ok(), "lights written by write_root are rejected by parse_lights");
+    assert!(p.is_ok(), "lights written by write_lights are rejected by parse_lights");
     let p = p.unwrap();
     kani::cover!(p.len() == 1 && p[0].use_attenuation);
-    assert!(p.len() == 1, "light count changed in write -> parse");
-    let (a, b) = (&root.lights[0], &p[0]);
+    assert!(p.len() == 1 && src.pos == out.pos, "light count changed / record size differs in write -> parse");
+    let (a, b) = (&l[0], &p[0]);
     assert!(a.light_type == b.light_type && a.use_attenuation == b.use_attenuation && coleq(&a.color, &b.color), "light type/flag/colour changed");
     assert!(veq(&a.position, &b.position) && a.intensity.to_bits() == b.intensity.to_bits() && a.attenuation_start.to_bits() == b.attenuation_start.to_bits()
         && a.attenuation_end.to_bits() == b.attenuation_end.to_bits(), "light position/intensity/attenuation changed");
     assert!(a.rotation[0].to_bits() == b.rotation[0].to_bits() && a.rotation[1].to_bits() == b.rotation[1].to_bits()
         && a.rotation[2].to_bits() == b.rotation[2].to_bits() && a.rotation[3].to_bits() == b.rotation[3].to_bits(), "light rotation changed");
-    std::mem::forget((r, root, map, p));
+    std::mem::forget((r, l, map, p));
 }
 
 // ------------------------------------------------------------------ MOPR
@@ -141,28 +138,25 @@ fn c15p_lights_roundtrip() {
 #[kani::stub(tracing::__macro_support::__is_enabled, common::tr_is_enabled)]
 #[kani::stub(tracing::Event::dispatch, common::tr_dispatch)]
 #[kani::stub(std::fmt::format, vio::fmt_stub)]
-#[kani::stub(std::hash::RandomState::new, common::rs_stub)]
 #[kani::unwind(12)]
 fn c15p_portal_refs_roundtrip() {
-    let v = ver_classic_to_mop();
-    let mut root = empty_root(v);
-    root.portal_references.push(WmoPortalReference { portal_index: kani::any(), group_index: kani::any(), side: kani::any() });
-    root.portal_references.push(WmoPortalReference { portal_index: kani::any(), group_index: kani::any(), side: kani::any() });
-    let mut out = Sink::<112>::new();
-    let r = WmoWriter::new().write_root(&mut out, &root, v);
-    assert!(r.is_ok());
-    let map = map1(&out, b"MOPR", FIRST, 16);
-    let mut src = Src::<112>::new(out.buf, out.pos);
+    let refs = [WmoPortalReference { portal_index: kani::any(), group_index: kani::any(), side: kani::any() },
+        WmoPortalReference { portal_index: kani::any(), group_index: kani::any(), side: kani::any() }];
+    let mut out = Sink::<32>::new();
+    let r = WmoWriter::new().write_portal_references(&mut out, &refs);
+    assert!(r.is_ok() && out.pos == 24);
+    let map = map1(&out, b"MOPR", 0, 16);
+    let mut src = Src::<32>::new(out.buf, out.pos);
     let p = WmoParser::new().parse_portal_references(&map, &mut src);
     assert!(p.is_ok());
     let p = p.unwrap();
     kani::cover!(p.len() == 2 && p[1].side == 1);
     assert!(p.len() == 2, "portal reference count changed in write -> parse");
-    let (a, b) = (&root.portal_references[0], &p[0]);
+    let (a, b) = (&refs[0], &p[0]);
     assert!(a.portal_index == b.portal_index && a.group_index == b.group_index && a.side == b.side, "portal reference 0 changed in write -> parse");
-    let (a, b) = (&root.portal_references[1], &p[1]);
+    let (a, b) = (&refs[1], &p[1]);
     assert!(a.portal_index == b.portal_index && a.group_index == b.group_index && a.side == b.side, "portal reference 1 changed in write -> parse");
-    std::mem::forget((r, root, map, p));
+    std::mem::forget((r, refs, map, p));
 }
 
 // ------------------------------------------------------------------ MOPV + MOPT
@@ -171,29 +165,48 @@ fn c15p_portal_refs_roundtrip() {
 #[kani::stub(tracing::__macro_support::__is_enabled, common::tr_is_enabled)]
 #[kani::stub(tracing::Event::dispatch, common::tr_dispatch)]
 #[kani::stub(std::fmt::format, vio::fmt_stub)]
-#[kani::stub(std::hash::RandomState::new, common::rs_stub)]
 #[kani::unwind(12)]
 fn c15p_portals_roundtrip() {
-    let v = ver_classic_to_mop();
-    let mut root = empty_root(v);
     // the writer multiplies normal by first vertex (plane distance): one factor of every product is kept concrete
-    root.portals.push(WmoPortal { vertices: vec![Vec3 { x: 1.0, y: 0.0, z: 0.0 }], normal: any_vec3() });
-    root.portals.push(WmoPortal { vertices: vec![any_vec3(), any_vec3()], normal: Vec3 { x: 0.0, y: 0.0, z: 1.0 } });
-    let mut out = Sink::<192>::new();
-    let r = WmoWriter::new().write_root(&mut out, &root, v);
-    assert!(r.is_ok());
-    let map = map2(&out, b"MOPV", FIRST, 36, b"MOPT", 40);
-    assert!(u32_at(&out, 20 + 8) == 2, "MOHD.nPortals != 2");
-    let mut src = Src::<192>::new(out.buf, out.pos);
+    let ps = [WmoPortal { vertices: vec![any_vec3(), any_vec3()], normal: Vec3 { x: 0.0, y: 0.0, z: 1.0 } }];
+    let mut out = Sink::<64>::new();
+    let r = WmoWriter::new().write_portals(&mut out, &ps);
+    assert!(r.is_ok() && out.pos == 60);
+    let map = map2(&out, b"MOPV", 0, 24, b"MOPT", 20);
+    let mut src = Src::<64>::new(out.buf, out.pos);
+    let p = WmoParser::new().parse_portals(&map, &mut src, 1);
+    assert!(p.is_ok());
+    let p = p.unwrap();
+    kani::cover!(p.len() == 1);
+    assert!(p.len() == 1 && p[0].vertices.len() == 2, "portal / portal vertex counts changed in write -> parse");
+    assert!(veq(&p[0].vertices[0], &ps[0].vertices[0]) && veq(&p[0].vertices[1], &ps[0].vertices[1]), "portal vertices changed in write -> parse");
+    assert!(veq(&p[0].normal, &ps[0].normal), "portal normal changed");
+    std::mem::forget((r, ps, map, p));
+}
+/// two portals: the second portal's vertex range starts after the first one's (vertex attribution), symbolic normal
+#[kani::proof]
+#[kani::stub(tracing::callsite::DefaultCallsite::interest, common::tr_interest)]
+#[kani::stub(tracing::__macro_support::__is_enabled, common::tr_is_enabled)]
+#[kani::stub(tracing::Event::dispatch, common::tr_dispatch)]
+#[kani::stub(std::fmt::format, vio::fmt_stub)]
+#[kani::unwind(12)]
+fn c15p_portals_roundtrip_2() {
+    let ps = [WmoPortal { vertices: vec![Vec3 { x: 1.0, y: 0.0, z: 0.0 }], normal: any_vec3() },
+        WmoPortal { vertices: vec![any_vec3(), any_vec3()], normal: Vec3 { x: 0.0, y: 0.0, z: 1.0 } }];
+    let mut out = Sink::<96>::new();
+    let r = WmoWriter::new().write_portals(&mut out, &ps);
+    assert!(r.is_ok() && out.pos == 92);
+    let map = map2(&out, b"MOPV", 0, 36, b"MOPT", 40);
+    let mut src = Src::<96>::new(out.buf, out.pos);
     let p = WmoParser::new().parse_portals(&map, &mut src, 2);
     assert!(p.is_ok());
     let p = p.unwrap();
     kani::cover!(p.len() == 2);
     assert!(p.len() == 2 && p[0].vertices.len() == 1 && p[1].vertices.len() == 2, "portal / portal vertex counts changed in write -> parse");
-    assert!(veq(&p[0].vertices[0], &root.portals[0].vertices[0]) && veq(&p[1].vertices[0], &root.portals[1].vertices[0])
-        && veq(&p[1].vertices[1], &root.portals[1].vertices[1]), "portal vertices changed (or were attributed to another portal)");
-    assert!(veq(&p[0].normal, &root.portals[0].normal) && veq(&p[1].normal, &root.portals[1].normal), "portal normal changed");
-    std::mem::forget((r, root, map, p));
+    assert!(veq(&p[1].vertices[0], &ps[1].vertices[0]) && veq(&p[1].vertices[1], &ps[1].vertices[1]) && p[0].vertices[0].x == 1.0,
+        "portal vertices changed (or were attributed to another portal)");
+    assert!(veq(&p[0].normal, &ps[0].normal) && veq(&p[1].normal, &ps[1].normal), "portal normal changed");
+    std::mem::forget((r, ps, map, p));
 }
 
 // ------------------------------------------------------------------ MOVV + MOVB
@@ -202,29 +215,24 @@ fn c15p_portals_roundtrip() {
 #[kani::stub(tracing::__macro_support::__is_enabled, common::tr_is_enabled)]
 #[kani::stub(tracing::Event::dispatch, common::tr_dispatch)]
 #[kani::stub(std::fmt::format, vio::fmt_stub)]
-#[kani::stub(std::hash::RandomState::new, common::rs_stub)]
 #[kani::unwind(12)]
 fn c15p_visible_lists_roundtrip() {
-    let v = ver_classic_to_mop();
-    let mut root = empty_root(v);
     let (a, b, c): (u16, u16, u16) = (kani::any(), kani::any(), kani::any());
     // 0xFFFF is the in-band list terminator of this encoding: not a representable element
     kani::assume(a != 0xFFFF && b != 0xFFFF && c != 0xFFFF);
-    root.visible_block_lists.push(vec![a, b]);
-    root.visible_block_lists.push(Vec::new());
-    root.visible_block_lists.push(vec![c]);
-    let mut out = Sink::<128>::new();
-    let r = WmoWriter::new().write_root(&mut out, &root, v);
-    assert!(r.is_ok());
-    let map = map2(&out, b"MOVV", FIRST, 12, b"MOVB", 12);
-    let mut src = Src::<128>::new(out.buf, out.pos);
+    let lists = [vec![a, b], Vec::new(), vec![c]];
+    let mut out = Sink::<48>::new();
+    let r = WmoWriter::new().write_visible_block_lists(&mut out, &lists);
+    assert!(r.is_ok() && out.pos == 40);
+    let map = map2(&out, b"MOVV", 0, 12, b"MOVB", 12);
+    let mut src = Src::<48>::new(out.buf, out.pos);
     let p = WmoParser::new().parse_visible_block_lists(&map, &mut src);
     assert!(p.is_ok());
     let p = p.unwrap();
     kani::cover!(p.len() == 3);
     assert!(p.len() == 3 && p[0].len() == 2 && p[1].len() == 0 && p[2].len() == 1, "visible block list shapes changed in write -> parse");
     assert!(p[0][0] == a && p[0][1] == b && p[2][0] == c, "visible block list elements changed in write -> parse");
-    std::mem::forget((r, root, map, p));
+    std::mem::forget((r, lists, map, p));
 }
 
 // ------------------------------------------------------------------ MODD (+ MODN)
@@ -233,31 +241,27 @@ fn c15p_visible_lists_roundtrip() {
 #[kani::stub(tracing::__macro_support::__is_enabled, common::tr_is_enabled)]
 #[kani::stub(tracing::Event::dispatch, common::tr_dispatch)]
 #[kani::stub(std::fmt::format, common::fmt_stub_dd)]
-#[kani::stub(std::hash::RandomState::new, common::rs_stub)]
 #[kani::unwind(12)]
 fn c15p_doodad_defs_roundtrip() {
-    let v = ver_classic_to_mop();
-    let mut root = empty_root(v);
-    root.doodad_defs.push(any_doodad());
+    let d = [any_doodad()];
     // known finding doodad-nameoff: the name offset is replaced by the offset of a synthesised name (0 for the first doodad)
-    kani::assume(root.doodad_defs[0].name_offset == 0);
-    let mut out = Sink::<160>::new();
-    let r = WmoWriter::new().write_root(&mut out, &root, v);
-    assert!(r.is_ok());
-    let map = map1(&out, b"MODD", FIRST + 8 + 3, 40);
-    assert!(u32_at(&out, 20 + 20) == 1, "MOHD.nDoodadDefs != 1");
-    let mut src = Src::<160>::new(out.buf, out.pos);
+    kani::assume(d[0].name_offset == 0);
+    let mut out = Sink::<64>::new();
+    let r = WmoWriter::new().write_doodad_definitions(&mut out, &d, ver_classic_to_mop());
+    assert!(r.is_ok() && out.pos == 59);
+    let map = map2(&out, b"MODN", 0, 3, b"MODD", 40);
+    let mut src = Src::<64>::new(out.buf, out.pos);
     let p = WmoParser::new().parse_doodad_defs(&map, &mut src, WmoVersion::Classic, 1);
     assert!(p.is_ok());
     let p = p.unwrap();
     kani::cover!(p.len() == 1);
     assert!(p.len() == 1, "doodad count changed in write -> parse");
-    let (a, b) = (&root.doodad_defs[0], &p[0]);
+    let (a, b) = (&d[0], &p[0]);
     assert!(a.name_offset == b.name_offset, "doodad name offset changed in write -> parse");
     assert!(veq(&a.position, &b.position) && a.scale.to_bits() == b.scale.to_bits() && coleq(&a.color, &b.color), "doodad position/scale/colour changed");
     assert!(a.orientation[0].to_bits() == b.orientation[0].to_bits() && a.orientation[1].to_bits() == b.orientation[1].to_bits()
         && a.orientation[2].to_bits() == b.orientation[2].to_bits() && a.orientation[3].to_bits() == b.orientation[3].to_bits(), "doodad orientation changed");
-    std::mem::forget((r, root, map, p));
+    std::mem::forget((r, d, map, p));
 }
 /// witness of known finding doodad-nameoff
 #[kani::proof]
@@ -265,19 +269,17 @@ fn c15p_doodad_defs_roundtrip() {
 #[kani::stub(tracing::__macro_support::__is_enabled, common::tr_is_enabled)]
 #[kani::stub(tracing::Event::dispatch, common::tr_dispatch)]
 #[kani::stub(std::fmt::format, common::fmt_stub_dd)]
-#[kani::stub(std::hash::RandomState::new, common::rs_stub)]
 #[kani::unwind(12)]
 fn c15p_doodad_name_offset_witness() {
-    let mut root = empty_root(WmoVersion::Classic);
-    root.doodad_defs.push(WmoDoodadDef { name_offset: 5, position: Vec3::default(), orientation: [0.0, 0.0, 0.0, 1.0], scale: 1.0, color: Color::default(), set_index: 0 });
-    let mut out = Sink::<160>::new();
-    let r = WmoWriter::new().write_root(&mut out, &root, WmoVersion::Classic);
+    let d = [WmoDoodadDef { name_offset: 5, position: Vec3::default(), orientation: [0.0, 0.0, 0.0, 1.0], scale: 1.0, color: Color::default(), set_index: 0 }];
+    let mut out = Sink::<64>::new();
+    let r = WmoWriter::new().write_doodad_definitions(&mut out, &d, WmoVersion::Classic);
     assert!(r.is_ok());
-    let map = map1(&out, b"MODD", FIRST + 8 + 3, 40);
-    let mut src = Src::<160>::new(out.buf, out.pos);
+    let map = map2(&out, b"MODN", 0, 3, b"MODD", 40);
+    let mut src = Src::<64>::new(out.buf, out.pos);
     let p = WmoParser::new().parse_doodad_defs(&map, &mut src, WmoVersion::Classic, 1).unwrap();
-    assert!(p.len() == 1 && p[0].name_offset == 5, "MODD: doodad name offset changed in write -> parse");
-    std::mem::forget((r, root, map, p));
+    assert!(p.len() == 1 && p[0].name_offset == 5, "[doodad-nameoff] MODD: doodad name offset changed in write -> parse");
+    std::mem::forget((r, d, map, p));
 }
 
 // ------------------------------------------------------------------ MODS
@@ -286,30 +288,25 @@ fn c15p_doodad_name_offset_witness() {
 #[kani::stub(tracing::__macro_support::__is_enabled, common::tr_is_enabled)]
 #[kani::stub(tracing::Event::dispatch, common::tr_dispatch)]
 #[kani::stub(std::fmt::format, vio::fmt_stub)]
-#[kani::stub(std::hash::RandomState::new, common::rs_stub)]
 #[kani::stub(std::string::String::from_utf8_lossy, lossy_stub)]
 #[kani::unwind(24)]
 fn c15p_doodad_sets_roundtrip() {
-    let v = ver_classic_to_mop();
-    let mut root = empty_root(v);
     // the name is concrete: the parser cuts it at the first NUL of the 20-byte field (symbolic length otherwise)
-    let a = *b"Set";
-    root.doodad_sets.push(WmoDoodadSet { name: String::from("Set"), start_doodad: kani::any(), n_doodads: kani::any() });
-    let mut out = Sink::<128>::new();
-    let r = WmoWriter::new().write_root(&mut out, &root, v);
-    assert!(r.is_ok());
-    let map = map1(&out, b"MODS", FIRST, 32);
-    assert!(u32_at(&out, 20 + 24) == 1, "MOHD.nDoodadSets != 1");
-    let mut src = Src::<128>::new(out.buf, out.pos);
+    let s = [WmoDoodadSet { name: String::from("Set"), start_doodad: kani::any(), n_doodads: kani::any() }];
+    let mut out = Sink::<48>::new();
+    let r = WmoWriter::new().write_doodad_sets(&mut out, &s);
+    assert!(r.is_ok() && out.pos == 40);
+    let map = map1(&out, b"MODS", 0, 32);
+    let mut src = Src::<48>::new(out.buf, out.pos);
     let p = WmoParser::new().parse_doodad_sets(&map, &mut src, Vec::new(), 1);
     assert!(p.is_ok());
     let p = p.unwrap();
     kani::cover!(p.len() == 1);
-    assert!(p.len() == 1, "doodad set count changed in write -> parse");
-    assert!(p[0].start_doodad == root.doodad_sets[0].start_doodad && p[0].n_doodads == root.doodad_sets[0].n_doodads, "doodad set range changed");
+    assert!(p.len() == 1 && src.pos == out.pos, "doodad set count changed / record size differs in write -> parse");
+    assert!(p[0].start_doodad == s[0].start_doodad && p[0].n_doodads == s[0].n_doodads, "doodad set range changed");
     let n = p[0].name.as_bytes();
-    assert!(n.len() == 3 && n[0] == a[0] && n[1] == a[1] && n[2] == a[2], "doodad set name changed in write -> parse");
-    std::mem::forget((r, root, map, p));
+    assert!(n.len() == 3 && n[0] == b'S' && n[1] == b'e' && n[2] == b't', "doodad set name changed in write -> parse");
+    std::mem::forget((r, s, map, p));
 }
 
 // ------------------------------------------------------------------ MOGN + MOGI
@@ -318,30 +315,27 @@ fn c15p_doodad_sets_roundtrip() {
 #[kani::stub(tracing::__macro_support::__is_enabled, common::tr_is_enabled)]
 #[kani::stub(tracing::Event::dispatch, common::tr_dispatch)]
 #[kani::stub(std::fmt::format, vio::fmt_stub)]
-#[kani::stub(std::hash::RandomState::new, common::rs_stub)]
 #[kani::unwind(12)]
 fn c15p_group_info_roundtrip_1() {
-    let v = ver_classic_to_mop();
-    let mut root = empty_root(v);
     // the name is concrete: the parser scans MOGN for the NUL (symbolic length otherwise)
-    let a = *b"grp";
-    root.groups.push(any_group_info(String::from("grp")));
-    let mut out = Sink::<160>::new();
-    let r = WmoWriter::new().write_root(&mut out, &root, v);
-    assert!(r.is_ok());
-    let map = map2(&out, b"MOGN", FIRST, 4, b"MOGI", 32);
-    assert!(u32_at(&out, 20 + 4) == 1, "MOHD.nGroups != 1");
-    let mut src = Src::<160>::new(out.buf, out.pos);
+    let g = [any_group_info(String::from("grp"))];
+    let w = WmoWriter::new();
+    let mut out = Sink::<64>::new();
+    let r = w.write_group_names(&mut out, &g);
+    let r2 = w.write_group_info(&mut out, &g, ver_classic_to_mop());
+    assert!(r.is_ok() && r2.is_ok() && out.pos == 52);
+    let map = map2(&out, b"MOGN", 0, 4, b"MOGI", 32);
+    let mut src = Src::<64>::new(out.buf, out.pos);
     let p = WmoParser::new().parse_group_info(&map, &mut src, WmoVersion::Classic, 1);
     assert!(p.is_ok());
     let p = p.unwrap();
     kani::cover!(p.len() == 1);
     assert!(p.len() == 1, "group count changed in write -> parse");
-    let (g, h) = (&root.groups[0], &p[0]);
-    assert!(g.flags == h.flags && veq(&g.bounding_box.min, &h.bounding_box.min) && veq(&g.bounding_box.max, &h.bounding_box.max), "group flags / bounding box changed");
-    let n = h.name.as_bytes();
-    assert!(n.len() == 3 && n[0] == a[0] && n[1] == a[1] && n[2] == a[2], "group name changed in write -> parse");
-    std::mem::forget((r, root, map, p));
+    let (a, b) = (&g[0], &p[0]);
+    assert!(a.flags == b.flags && veq(&a.bounding_box.min, &b.bounding_box.min) && veq(&a.bounding_box.max, &b.bounding_box.max), "group flags / bounding box changed");
+    let n = b.name.as_bytes();
+    assert!(n.len() == 3 && n[0] == b'g' && n[1] == b'r' && n[2] == b'p', "group name changed in write -> parse");
+    std::mem::forget((r, r2, g, map, p));
 }
 /// witness of known finding mogi-nameoff through the parser: second group comes back with the first group's name
 #[kani::proof]
@@ -349,21 +343,19 @@ fn c15p_group_info_roundtrip_1() {
 #[kani::stub(tracing::__macro_support::__is_enabled, common::tr_is_enabled)]
 #[kani::stub(tracing::Event::dispatch, common::tr_dispatch)]
 #[kani::stub(std::fmt::format, vio::fmt_stub)]
-#[kani::stub(std::hash::RandomState::new, common::rs_stub)]
 #[kani::unwind(12)]
 fn c15p_group_names_witness() {
-    let mut root = empty_root(WmoVersion::Classic);
     let z = BoundingBox { min: Vec3::default(), max: Vec3::default() };
-    root.groups.push(WmoGroupInfo { flags: WmoGroupFlags::empty(), bounding_box: z, name: String::from("ab") });
-    root.groups.push(WmoGroupInfo { flags: WmoGroupFlags::empty(), bounding_box: z, name: String::from("cd") });
-    let mut out = Sink::<192>::new();
-    let r = WmoWriter::new().write_root(&mut out, &root, WmoVersion::Classic);
-    assert!(r.is_ok());
-    let map = map2(&out, b"MOGN", FIRST, 6, b"MOGI", 64);
-    let mut src = Src::<192>::new(out.buf, out.pos);
+    let g = [WmoGroupInfo { flags: WmoGroupFlags::empty(), bounding_box: z, name: String::from("ab") },
+        WmoGroupInfo { flags: WmoGroupFlags::empty(), bounding_box: z, name: String::from("cd") }];
+    let w = WmoWriter::new();
+    let mut out = Sink::<96>::new();
+    assert!(w.write_group_names(&mut out, &g).is_ok() && w.write_group_info(&mut out, &g, WmoVersion::Classic).is_ok());
+    let map = map2(&out, b"MOGN", 0, 6, b"MOGI", 64);
+    let mut src = Src::<96>::new(out.buf, out.pos);
     let p = WmoParser::new().parse_group_info(&map, &mut src, WmoVersion::Classic, 2).unwrap();
-    assert!(p.len() == 2 && p[1].name.as_bytes()[0] == b'c', "MOGI/MOGN: second group's name changed in write -> parse");
-    std::mem::forget((r, root, map, p));
+    assert!(p.len() == 2 && p[1].name.as_bytes()[0] == b'c', "[mogi-nameoff] MOGI: name offset of the second group is 0, its name comes back as the first group's");
+    std::mem::forget((g, map, p));
 }
 
 // ------------------------------------------------------------------ MOSB
@@ -389,12 +381,13 @@ fn c15p_skybox_witness() {
     let version = WmoVersion::from_raw(u32_at(&out, 8)).unwrap(); // what parse_version computes from MVER
     let h = parser.parse_header(&map, &mut src, version).unwrap();
     let p = parser.parse_skybox(&map, &mut src, version, &h).unwrap();
-    assert!(p.is_some(), "MOSB: skybox written for a WotLK root is not read back");
+    assert!(p.is_some(), "[skybox-v17] MOSB: skybox written for a WotLK root is not read back");
     std::mem::forget((r, root, map, p, h));
 }
 
 // ------------------------------------------------------------------ MOTX
-/// names are concrete here (String::push of a symbolic char has a symbolic length); the subject is the offset table
+/// names are concrete here (String::push of a symbolic char has a symbolic length); the subject is the offset table,
+/// which is a std HashMap filled by parse_textures (two real inserts: thorough tier)
 #[kani::proof]
 #[kani::stub(tracing::callsite::DefaultCallsite::interest, common::tr_interest)]
 #[kani::stub(tracing::__macro_support::__is_enabled, common::tr_is_enabled)]
@@ -403,15 +396,12 @@ fn c15p_skybox_witness() {
 #[kani::stub(std::hash::RandomState::new, common::rs_stub)]
 #[kani::unwind(12)]
 fn c15p_textures_roundtrip() {
-    let v = ver_classic_to_mop();
-    let mut root = empty_root(v);
-    root.textures.push(String::from("abc"));
-    root.textures.push(String::from("ab"));
-    let mut out = Sink::<112>::new();
-    let r = WmoWriter::new().write_root(&mut out, &root, v);
-    assert!(r.is_ok());
-    let map = map1(&out, b"MOTX", FIRST, 7);
-    let mut src = Src::<112>::new(out.buf, out.pos);
+    let tex = [String::from("abc"), String::from("ab")];
+    let mut out = Sink::<16>::new();
+    let r = WmoWriter::new().write_textures(&mut out, &tex);
+    assert!(r.is_ok() && out.pos == 15);
+    let map = map1(&out, b"MOTX", 0, 7);
+    let mut src = Src::<16>::new(out.buf, out.pos);
     let p = WmoParser::new().parse_textures(&map, &mut src);
     assert!(p.is_ok());
     let (t, offs) = p.unwrap();
@@ -419,9 +409,9 @@ fn c15p_textures_roundtrip() {
     assert!(t.len() == 2, "texture count changed in write -> parse");
     let (x, y) = (t[0].as_bytes(), t[1].as_bytes());
     assert!(x.len() == 3 && x[0] == b'a' && x[2] == b'c' && y.len() == 2 && y[1] == b'b', "texture names changed in write -> parse");
-    // C15.c: the offset table has exactly the positions where the names really are (0 and 4)
+    // C15.c: the offset table has one entry per name
     assert!(offs.len() == 2, "texture offset table size != texture count");
-    std::mem::forget((r, root, map, t, offs));
+    std::mem::forget((r, tex, map, t, offs));
 }
 
 // ------------------------------------------------------------------ whole file: read_chunks + every parse_* (concrete content)
@@ -483,7 +473,7 @@ fn c15p_root_bbox_witness() {
     assert!(r.is_ok());
     let mut src = Src::<96>::new(out.buf, out.pos);
     let q = WmoParser::new().parse_root(&mut src).unwrap();
-    assert!(q.bounding_box.max.x == 1.0, "MOHD: bounding box written by write_root is not the one parse_root returns");
+    assert!(q.bounding_box.max.x == 1.0, "[root-bbox] MOHD: bounding box written by write_root is not the one parse_root returns");
     std::mem::forget((r, root, q));
 }
 
@@ -492,12 +482,15 @@ fn c15p_root_bbox_witness() {
 #[kani::stub(tracing::__macro_support::__is_enabled, common::tr_is_enabled)]
 #[kani::stub(tracing::Event::dispatch, common::tr_dispatch)]
 #[kani::stub(std::fmt::format, vio::fmt_stub)]
-#[kani::stub(std::hash::RandomState::new, common::rs_stub)]
 #[kani::unwind(12)]
 fn c15_parser_canary() {
-    let root = empty_root(WmoVersion::Classic);
-    let mut out = Sink::<96>::new();
-    let r = WmoWriter::new().write_root(&mut out, &root, WmoVersion::Classic);
-    std::mem::forget((r, root));
-    assert!(u32_at(&out, 20 + 0x1C) != 0x01020304, "canary: must be reported as failing");
+    let refs = [WmoPortalReference { portal_index: kani::any(), group_index: kani::any(), side: kani::any() }];
+    let mut out = Sink::<16>::new();
+    let r = WmoWriter::new().write_portal_references(&mut out, &refs);
+    let map = map1(&out, b"MOPR", 0, 8);
+    let mut src = Src::<16>::new(out.buf, out.pos);
+    let p = WmoParser::new().parse_portal_references(&map, &mut src).unwrap();
+    let same = p[0].side != 0x1234;
+    std::mem::forget((r, refs, map, p));
+    assert!(same, "canary: must be reported as failing");
 }
